@@ -6,6 +6,7 @@
   no position twice.
 -/
 import BB.Proofs.G11Elem
+import BB.Model.Tools
 
 namespace BB.G12
 open BB
@@ -32,78 +33,120 @@ theorem inner_copyEntry (P : Element → Prop) (en : Entry)
       subst hs
       exact h.2 s0 rfl
 
+/-! ### one step of the public sequence API at a time -/
+
+theorem inner_empty (P : Element → Prop) : Inner P ({} : Sequence) := by
+  intro x hx; cases hx
+
+/-- `addElement` (accepted or refused) of an element with `P` -/
+theorem inner_addElement (P : Element → Prop) (hc : ∀ (e : Element) (c : Option (Val × ℚ)), P e → P { e with cache := c })
+    {s : Sequence} (h : Inner P s) (pos : Int) (e : Element) (he : P e) : Inner P (s.addElement pos e).st := by
+  unfold Sequence.addElement
+  split
+  · exact h
+  · intro x hx
+    simp only at hx
+    rcases g4_mem_upsert_cases _ _ _ _ hx with hx | hx
+    · rw [hx]
+      refine ⟨fun e' he' => ?_, fun sub hs => by cases hs⟩
+      simp only [Entry.el.injEq] at he'
+      rw [← he']
+      exact hc e _ he
+    · exact h x hx
+
+/-- `addSubSequence` (accepted or refused) of a sequence whose elements have `P` -/
+theorem inner_addSubSequence (P : Element → Prop) {s sub : Sequence} (h : Inner P s) (hsub : Inner P sub)
+    (pos : Int) : Inner P (s.addSubSequence pos sub).st := by
+  unfold Sequence.addSubSequence
+  split
+  · exact h
+  · rename_i d hd
+    split
+    · exact h
+    · intro x hx
+      simp only at hx
+      rcases g4_mem_upsert_cases _ _ _ _ hx with hx | hx
+      · rw [hx]
+        refine ⟨fun e' he' => (by cases he'), fun sub' hs y hy => ?_⟩
+        simp only [Entry.sub.injEq] at hs
+        subst hs
+        simp only [Sequence.storedSub] at hy
+        have := G11.elementsOnly_mem sub.data d hd y hy
+        exact (hsub _ this).1 y.2 rfl
+      · exact h x hx
+
+theorem inner_setFilter (P : Element → Prop) {s : Sequence} (h : Inner P s) (ch : Chan) (kind : String)
+    (order : Int) (isInt : Bool) (fc tau : Val) :
+    Inner P (s.setChannelFilterCompensation ch kind order isInt fc tau).st := by
+  unfold SeqCore.setChannelFilterCompensation
+  split
+  · exact h
+  · split
+    · exact h
+    · split <;> exact h
+
+theorem inner_setSequencing (P : Element → Prop) {s : Sequence} (h : Inner P s) (pos : Int) (f : SeqSet → SeqSet) :
+    Inner P (s.setSequencing pos f).st := by
+  unfold SeqCore.setSequencing
+  split <;> exact h
+
+/-- `a + b` -/
+theorem inner_add (P : Element → Prop) {a b c : Sequence} (ha : Inner P a) (hb : Inner P b)
+    (hadd : a.add b = .ok c) : Inner P c := by
+  unfold Sequence.add at hadd
+  split at hadd
+  · cases hadd
+  · cases hadd
+  · split at hadd
+    · cases hadd
+    · cases hadd
+    · split at hadd
+      · simp only [Except.ok.injEq] at hadd
+        subst hadd
+        intro x hx
+        unfold Sequence.addCore at hx
+        simp only at hx
+        have hx' : x ∈ b.data.foldl (fun d (p : Int × Entry) => Dict.upsert d (p.1 + (a.data.length : Int)) (Sequence.copyEntry p.2))
+            (a.data.map (fun (p : Int × Entry) => (p.1, Sequence.copyEntry p.2))) := hx
+        rcases Sequence.g4_foldl_upsert_mem _ _ _ _ hx' with h | ⟨y, hy, hxy⟩
+        · obtain ⟨z, hz, rfl⟩ := List.mem_map.mp h
+          exact inner_copyEntry P z.2 (ha z hz)
+        · rw [hxy]
+          exact inner_copyEntry P y.2 (hb y hy)
+      · cases hadd
+
+/-- an edit of the stored element itself through `sequence.element(pos)` (`Tools.modifyElement`),
+    by an element operation that keeps `P` -/
+theorem inner_modifyElement (P : Element → Prop) {s : Sequence} (h : Inner P s) (pos : Int)
+    (f : Element → Res Element) (hf : ∀ e, P e → P (f e).st) : Inner P (Tools.modifyElement s pos f).st := by
+  unfold Tools.modifyElement
+  split
+  · rename_i e hg
+    intro x hx
+    simp only at hx
+    rcases g4_mem_upsert_cases _ _ _ _ hx with hx | hx
+    · rw [hx]
+      refine ⟨fun e' he' => ?_, fun sub hs => by cases hs⟩
+      simp only [Entry.el.injEq] at he'
+      rw [← he']
+      exact hf e ((h _ (Dict.mem_of_get?_eq_some pos _ hg)).1 e rfl)
+    · exact h x hx
+  · exact h
+  · exact h
+
 /-- **lifting**: a cache-blind property of API-built elements holds for every element stored
     (directly or inside a subsequence) in an API-built sequence -/
 theorem apiBuilt_inner (P : Element → Prop) (hc : ∀ (e : Element) (c : Option (Val × ℚ)), P e → P { e with cache := c })
     (hP : ∀ e, Element.ApiBuilt e → P e) {s : Sequence} (h : Sequence.ApiBuilt s) : Inner P s := by
   induction h with
-  | empty => intro x hx; cases hx
-  | addElement s pos e _ he ih =>
-    unfold Sequence.addElement
-    split
-    · exact ih
-    · rename_i m hv
-      intro x hx
-      simp only at hx
-      rcases g4_mem_upsert_cases _ _ _ _ hx with h | h
-      · rw [h]
-        refine ⟨fun e' he' => ?_, fun sub hs => by cases hs⟩
-        simp only [Entry.el.injEq] at he'
-        rw [← he']
-        exact hc e _ (hP e he)
-      · exact ih x h
-  | addSubSequence s pos sub _ _ ih ihsub =>
-    unfold Sequence.addSubSequence
-    split
-    · exact ih
-    · rename_i d hd
-      split
-      · exact ih
-      · intro x hx
-        simp only at hx
-        rcases g4_mem_upsert_cases _ _ _ _ hx with h | h
-        · rw [h]
-          refine ⟨fun e' he' => (by cases he'), fun sub' hs y hy => ?_⟩
-          simp only [Entry.sub.injEq] at hs
-          subst hs
-          simp only [Sequence.storedSub] at hy
-          have := G11.elementsOnly_mem sub.data d hd y hy
-          exact (ihsub _ this).1 y.2 rfl
-        · exact ih x h
+  | empty => exact inner_empty P
+  | addElement s pos e _ he ih => exact inner_addElement P hc ih pos e (hP e he)
+  | addSubSequence s pos sub _ _ ih ihsub => exact inner_addSubSequence P ih ihsub pos
   | setSpec s k v _ ih => exact ih
-  | setFilter s ch kind order isInt fc tau _ ih =>
-    unfold SeqCore.setChannelFilterCompensation
-    split
-    · exact ih
-    · split
-      · exact ih
-      · split <;> exact ih
-  | setSequencing s pos f _ ih =>
-    unfold SeqCore.setSequencing
-    split <;> exact ih
+  | setFilter s ch kind order isInt fc tau _ ih => exact inner_setFilter P ih ch kind order isInt fc tau
+  | setSequencing s pos f _ ih => exact inner_setSequencing P ih pos f
   | copy s _ ih => exact ih
-  | add a b c _ _ hadd iha ihb =>
-    unfold Sequence.add at hadd
-    split at hadd
-    · cases hadd
-    · cases hadd
-    · split at hadd
-      · cases hadd
-      · cases hadd
-      · split at hadd
-        · simp only [Except.ok.injEq] at hadd
-          subst hadd
-          intro x hx
-          unfold Sequence.addCore at hx
-          simp only at hx
-          have hx' : x ∈ b.data.foldl (fun d (p : Int × Entry) => Dict.upsert d (p.1 + (a.data.length : Int)) (Sequence.copyEntry p.2))
-              (a.data.map (fun (p : Int × Entry) => (p.1, Sequence.copyEntry p.2))) := hx
-          rcases Sequence.g4_foldl_upsert_mem _ _ _ _ hx' with h | ⟨y, hy, hxy⟩
-          · obtain ⟨z, hz, rfl⟩ := List.mem_map.mp h
-            exact inner_copyEntry P z.2 (iha z hz)
-          · rw [hxy]
-            exact inner_copyEntry P y.2 (ihb y hy)
-        · cases hadd
+  | add a b c _ _ hadd iha ihb => exact inner_add P iha ihb hadd
 
 /-- helper: a fold of `upsert`s keeps "no key twice" -/
 theorem wf_foldl_upsert {α β : Type} (l : List β) (k : β → Int) (v : β → α) (d : Dict Int α) (h : Dict.WF d) :
